@@ -967,6 +967,10 @@ static void list_output_msp430_both(
 
   fprintf(asm_context->list, "\n");
 
+  // The assembler pads with a 0 when an instruction would start on an odd
+  // address, the instruction itself starts on the next word.
+  if ((start & 1) != 0) { start++; }
+
   while (start < end)
   {
     if (is_msp430x == false)
